@@ -77,9 +77,14 @@ func VerifC05_SignVerifyPlain() {
 			ad.PreviousID = nil
 		}
 	case 1:
+		// another entries link: another digest, or the same digest under another
+		// codec (the whole link is signed, not just its multihash)
 		old := ad.Entries.(cidlink.Link).Cid
-		ad.Entries = c05link("entries2")
-		verif_Assume(old != ad.Entries.(cidlink.Link).Cid)
+		codec := []byte{0x55, 0x71}[verif_Choose("entries2Codec", 0, 1)]
+		c2, cerr := cid.Cast([]byte{0x01, codec, 0x00, 0x01, verif_U8("entries2")})
+		verif_Assume(cerr == nil)
+		ad.Entries = cidlink.Link{Cid: c2}
+		verif_Assume(old != c2)
 	case 2:
 		old := ad.Provider
 		ad.Provider = verif_Str("provider2", verif_Choose("provider2Len", 0, 2))
@@ -211,4 +216,27 @@ func VerifC05_ExtendedSignerIdentity() {
 	_, verr := ad.VerifySignature()
 	verif_Reach("verified")
 	verif_Assert(verr != nil, "an extended-provider entry sealed by a key other than the identity it names is rejected")
+}
+
+// C05 (b) for removal advertisements: extended-provider signatures cannot be
+// made for a removal ad, so a removal ad that carries extended providers
+// (attached after a valid plain signature) has entries nobody verifiably
+// signed and must not verify.
+func VerifC05_RemovalWithExtended() {
+	k := c05newKey()
+	x := c05newKey()
+	ad := c05ad(k.id.String())
+	ad.IsRm = true
+	verif_Assert(ad.Sign(k.priv) == nil, "signing a removal advertisement succeeds")
+	_, verr := ad.VerifySignature()
+	verif_Assert(verr == nil, "a signed removal advertisement verifies")
+	xp := &ExtendedProvider{Override: verif_Bool("override")}
+	if verif_Bool("mainProviderListed") {
+		xp.Providers = append(xp.Providers, Provider{ID: k.id.String(), Signature: verif_Bytes("mainEntrySignature", verif_Choose("mainEntrySignatureLen", 0, 1))})
+	}
+	xp.Providers = append(xp.Providers, Provider{ID: x.id.String(), Addresses: c05strs("epAddress", 1), Signature: verif_Bytes("entrySignature", verif_Choose("entrySignatureLen", 0, 1))})
+	ad.ExtendedProvider = xp
+	_, verr = ad.VerifySignature()
+	verif_Reach("verified")
+	verif_Assert(verr != nil, "extended-provider entries that nobody verifiably signed are rejected, on a removal advertisement too")
 }
